@@ -61,6 +61,9 @@ def fint(value):
             value = int(float(value))
         else:
             raise ValueError("Empty string provided for fint!")
+    elif isinstance(value, numbers.Integral):
+        # keep integers exact (`float` has only 53 bits of precision)
+        value = int(value)
     else:
         value = int(float(value))
     return value
